@@ -26,3 +26,23 @@ def lemma_psum_ext(xs, ys, n):
 def lemma_ceil_div(n, c):
     # requires c >= 1, n >= 0 ; ensures m = -(n // -c) satisfies  m*c >= n, (m-1)*c < n, (n >= 1 -> m >= 1), (n == 0 -> m == 0)
     pass
+
+
+def lemma_divmod(d, b):
+    # requires b >= 1, d >= 0 ; ensures d == b * (d // b) + d % b, 0 <= d % b < b, d // b >= 0
+    pass
+
+
+def lemma_psum_const(xs, n, c):
+    # requires xs[i] == c for 0 <= i < n ; ensures psum(xs, n) == c * n
+    k = 0
+    while k < n:
+        k += 1
+
+
+def lemma_tiling(b, j):
+    # requires b non-decreasing, b[0] <= j < b[-1] ; returns i with b[i] <= j < b[i+1]
+    i = 0
+    while b[i + 1] <= j:
+        i += 1
+    return i
